@@ -286,7 +286,9 @@ PROPS = {
         'runs': [{'cmd': 'stepper', 'args': ['-family', 'mixed']}, {'cmd': 'stepper', 'args': ['-family', 'terminate']},
                  {'cmd': 'stepper', 'args': ['-family', 'dynamic']},
                  {'cmd': 'blackbox', 'args': ['-scenario', 'prio2,prio1,dynamic,simple2,simple1']}],
-        'monitor_prefix': ['C02'],
+        # the AddInput monitor of the dynamic family (the added channel is not among the inputs served:
+        # whatever is written to it is never delivered) is a C02 failing input as well (seed C02-i)
+        'monitor_prefix': ['C02', 'C17 after AddInput(ch,'],
         'level': 'proof',
         'level_text': ('Lean theorems on the history variables of the scheduler machine (arrived, taken, delivered, dropped) for every '
                        'action list and every divider: per input channel, delivered ++ still-queued = written (no loss, duplication, '
